@@ -28,7 +28,7 @@ WALKER_PLUMBING = {"builtins.isinstance", "builtins.callable", "builtins.type", 
                    "list.append", "builtins.len", "builtins.bool", "builtins.tuple", "builtins.list", "dict.items",
                    "dict.keys", "dict.values", "builtins.iter", "builtins.next", "builtins.repr", "builtins.str",
                    "builtins.hasattr", "builtins.id", "list.extend", "builtins.enumerate", "builtins.reversed",
-                   "builtins.range"}
+                   "builtins.range", "builtins.any", "builtins.all"}
 ALLOWED_NODE_CLASSES = {"Constant", "BinOp", "UnaryOp", "Call", "Name", "List", "Tuple", "Compare", "BoolOp", "IfExp"}
 WALKER_FUNCS = {"_compute_node", "<genexpr>", "<listcomp>", "<lambda>", "<dictcomp>"}
 
@@ -81,7 +81,7 @@ class C01(Prop):
     extractors = ["E1"]
     fixed_prefix = 2
     quick_budget = 260
-    thorough_budget = 4000
+    thorough_budget = 10000
     quick_deadline_s = 100
     thorough_deadline_s = 800
     all_branches = ["o:ok", "o:fail-ros", "o:fail-guard", "d:tool", "d:literal", "d:keyword", "d:compare", "d:math",
@@ -151,8 +151,10 @@ class C01(Prop):
                 e = rng.choice(["2**10 + 3*4", "12345678901234567890 * 98765432109876543210 + 1", "3 + 4 * 5",
                                 "7**7 * 2", "1000000 * 1000000 * 1000000"])
                 yield {"lines": mito.header(rng, self.facts) + [mito.bound_line(e)], "note": "bounded probe (within)"}
-            elif tier == "thorough" and i % 400 == 11:
-                e = rng.choice(["9**9**9", "8**8**8**8", "9**9**9 * 2"])
+            elif tier == "thorough" and i % 1000 == 11:
+                # hand-checked towers only: with a power-of-two base CPython computes the inner power quickly and
+                # then fails fast with MemoryError (a prompt failure result, which the property allows)
+                e = rng.choice(["9**9**9", "9**9**9**9", "9**9**9 * 2"])
                 yield {"lines": mito.header(rng, self.facts) + [mito.bound_line(e)], "note": "bounded probe (exceeds)"}
             else:
                 yield self._tracer_case(rng, rng.choice([1, 2, 2, 3, 3, 4] if tier == "quick" else [2, 3, 4, 5, 6]))
